@@ -346,3 +346,104 @@ Lemma code_delivers :
   t_got (s_rd (trun tcode (tinit 10) [TAppend; TStep; TStep; TRollNew; TSeal; TAppend; TWaitDec; TStep; TStep; TStep])) = 2 /\
   t_got (s_rd (trun tcode (tinit 10) [TAppend; TAppend; TTruncCopy 1; TStep; TStep; TWaitDec; TRollNew; TSeal; TAppend; TStep; TStep; TStep])) = 2.
 Proof. vm_compute. split; reflexivity. Qed.
+
+(* ---- progress: with the writers quiet (and no seal outstanding) a reader behind the end of the log
+   delivers its next message within a bounded number of its own steps: it neither parks nor spins ---- *)
+Definition rstep (s : tst) : tst :=
+  tstep tcode s (match t_phase (s_rd s) with AboutToWait => TWaitDec | _ => TStep end).
+
+Fixpoint riter (n : nat) (s : tst) : tst := match n with O => s | S k => riter k (rstep s) end.
+
+Definition has_data (s : tst) : Prop :=
+  t_pos (s_rd s) < g_len (nth_sg (s_segs s) (t_seg (s_rd s))) \/
+  exists j, (t_seg (s_rd s) < j < length (s_segs s))%nat /\ 0 < g_len (nth_sg (s_segs s) j).
+
+Lemma rstep_inv s : tinv s -> tinv (rstep s).
+Proof. intros H. unfold rstep. apply tstep_inv. exact H. Qed.
+
+Lemma rstep_segs s : s_segs (rstep s) = s_segs s /\ s_pending (rstep s) = s_pending s.
+Proof.
+  unfold rstep. destruct s as [segs pend [seg pos snap w ph got]]. simp_rd. destruct ph; cbn [tstep]; simp_rd.
+  - destruct w as [|[[]|[]|]]; repeat match goal with |- context [if ?c then _ else _] => destruct c end; split; reflexivity.
+  - match goal with |- context [if ?c then _ else _] => destruct c end; split; reflexivity.
+  - split; reflexivity.
+Qed.
+
+(* moving to the next segment keeps "there is something to read" *)
+Lemma has_data_move segs pend seg pos snap w ph got sn w' :
+  has_data (mkT segs pend (mkTr seg pos snap w ph got)) -> pos = g_len (nth_sg segs seg) ->
+  has_data (mkT segs pend (mkTr (S seg) 0 sn w' Running got)).
+Proof.
+  intros [Hd|(j & Hj & Hl)] Ep; unfold has_data in *; simp_rd; [lia|].
+  destruct (Nat.eq_dec j (S seg)) as [->|N]; [left; exact Hl|right; exists j; split; [lia|exact Hl]].
+Qed.
+
+Theorem reader_progress_aux : forall d s, tinv s -> s_pending s = None ->
+  (length (s_segs s) - t_seg (s_rd s))%nat = d -> has_data s ->
+  exists n, (n <= 4 * d + 2)%nat /\ t_got (s_rd (riter n s)) = t_got (s_rd s) + 1.
+Proof.
+  induction d as [d IHd] using lt_wf_ind. intros s H Hpn Hd Hdata.
+  pose proof H as H0. inv_fields H. destruct s as [segs pend [seg pos snap w ph got]]. simp_rd. subst pend.
+  set (g := nth_sg segs seg) in *.
+  assert (Hw3 : (w = 0 \/ w = 1 \/ w = 2)%N) by lia.
+  destruct (Z.lt_ge_cases pos (g_len g)) as [Hlt|Hge].
+  - (* the segment has more: at most a waitForData that returns at once, then the read *)
+    assert (Hw2 : w <> 2%N) by (intros ->; destruct (Hinner eq_refl) as [E _]; fold g in E; lia).
+    destruct ph.
+    + exists 1%nat. split; [lia|]. cbn [riter]. unfold rstep. simp_rd. cbn [tstep]. simp_rd. fold g.
+      destruct Hw3 as [-> | [-> | ->]]; try contradiction; cbv iota; destruct (Z.ltb_spec pos (g_len g)); try lia; reflexivity.
+    + exists 2%nat. split; [lia|]. cbn [riter]. unfold rstep at 2. simp_rd. cbn [tstep]. simp_rd. fold g.
+      destruct (Z.ltb_spec pos (g_len g)); [|lia]. cbn [orb]. unfold rstep. simp_rd. cbn [tstep]. simp_rd. fold g.
+      destruct Hw3 as [-> | [-> | ->]]; try contradiction; cbv iota; destruct (Z.ltb_spec pos (g_len g)); try lia; reflexivity.
+    + destruct (Hpark eq_refl) as (E & _). fold g in E. lia.
+  - (* the segment is consumed: what remains is in a later segment, so this one is sealed *)
+    assert (Ep : pos = g_len g) by (fold g in Hpos; lia).
+    destruct Hdata as [Hc|(j & Hj & Hl)]; [simp_rd; fold g in Hc; lia|]. simp_rd.
+    assert (Hlast : (seg < last_idx segs)%nat) by (unfold last_idx; lia).
+    assert (Hsealed : g_sealed g = true) by (destruct (Hold seg Hlast) as [S1|S1]; [exact S1|discriminate]).
+    assert (Hfresh : (S seg <? length segs)%nat = true) by (apply Nat.ltb_lt; unfold last_idx in Hlast; lia).
+    assert (Hdata0 : has_data (mkT segs None (mkTr seg pos snap w ph got))) by (right; exists j; split; assumption).
+    (* after the move: one segment less to go *)
+    assert (Hnext : forall sn w', tinv (mkT segs None (mkTr (S seg) 0 sn w' Running got)) ->
+              exists n, (n <= 4 * (d - 1) + 2)%nat /\ t_got (s_rd (riter n (mkT segs None (mkTr (S seg) 0 sn w' Running got)))) = got + 1).
+    { intros sn w' Hi. apply (IHd (d - 1)%nat ltac:(lia) _ Hi eq_refl); simp_rd; [lia|].
+      apply (has_data_move segs None seg pos snap w ph got sn w' Hdata0). exact Ep. }
+    assert (Hd1 : (1 <= d)%nat) by lia.
+    (* the states the reader goes through *)
+    set (sR := fun w0 sn => mkT segs None (mkTr seg pos sn w0 Running got)).
+    assert (StepMove1 : forall sn, rstep (sR 1%N sn) = mkT segs None (mkTr (S seg) 0 (length segs) 0 Running got)).
+    { intros sn. unfold rstep, sR. simp_rd. cbn [tstep]. simp_rd. fold g. cbv iota. destruct (Z.ltb_spec pos (g_len g)); [lia|]. rewrite Hfresh. reflexivity. }
+    assert (StepMove2 : forall sn, rstep (sR 2%N sn) = mkT segs None (mkTr (S seg) 0 (length segs) 0 Running got)).
+    { intros sn. unfold rstep, sR. simp_rd. cbn [tstep]. simp_rd. cbv iota. rewrite Hfresh. reflexivity. }
+    assert (StepWait : forall w0 sn, rstep (mkT segs None (mkTr seg pos sn w0 AboutToWait got)) = sR w0 sn).
+    { intros w0 sn. unfold rstep, sR. simp_rd. cbn [tstep]. simp_rd. fold g. cbn [tcode tv_sealed andb]. rewrite Hsealed, !orb_true_r. reflexivity. }
+    assert (Step0 : forall sn, rstep (sR 0%N sn) = (if (S seg <? sn)%nat then mkT segs None (mkTr (S seg) 0 sn 0 Running got) else mkT segs None (mkTr seg pos sn 1 AboutToWait got))).
+    { intros sn. unfold rstep, sR. simp_rd. cbn [tstep]. simp_rd. fold g. cbv iota. destruct (Z.ltb_spec pos (g_len g)); [lia|]. reflexivity. }
+    (* from Running with flag w0 *)
+    assert (FromRunning : forall w0 sn, (w0 = 0 \/ w0 = 1 \/ w0 = 2)%N -> tinv (sR w0 sn) ->
+              exists n, (n <= 4 * (d - 1) + 2 + 3)%nat /\ t_got (s_rd (riter n (sR w0 sn))) = got + 1).
+    { intros w0 sn Hw0 Hi. destruct Hw0 as [-> | [-> | ->]].
+      - pose proof (rstep_inv _ Hi) as Hi1. rewrite Step0 in Hi1. destruct (S seg <? sn)%nat eqn:Esn.
+        + destruct (Hnext _ _ Hi1) as (n & Hn & Hg). exists (S n). split; [lia|]. cbn [riter]. rewrite Step0, Esn. exact Hg.
+        + pose proof (rstep_inv _ Hi1) as Hi2. rewrite StepWait in Hi2. pose proof (rstep_inv _ Hi2) as Hi3. rewrite StepMove1 in Hi3.
+          destruct (Hnext _ _ Hi3) as (n & Hn & Hg). exists (S (S (S n))). split; [lia|]. cbn [riter]. rewrite Step0, Esn, StepWait, StepMove1. exact Hg.
+      - pose proof (rstep_inv _ Hi) as Hi1. rewrite StepMove1 in Hi1. destruct (Hnext _ _ Hi1) as (n & Hn & Hg).
+        exists (S n). split; [lia|]. cbn [riter]. rewrite StepMove1. exact Hg.
+      - pose proof (rstep_inv _ Hi) as Hi1. rewrite StepMove2 in Hi1. destruct (Hnext _ _ Hi1) as (n & Hn & Hg).
+        exists (S n). split; [lia|]. cbn [riter]. rewrite StepMove2. exact Hg. }
+    destruct ph.
+    + destruct (FromRunning w snap Hw3 H0) as (n & Hn & Hg). exists n. split; [lia|exact Hg].
+    + pose proof (rstep_inv _ H0) as Hi1. rewrite StepWait in Hi1. destruct (FromRunning w snap Hw3 Hi1) as (n & Hn & Hg).
+      exists (S n). split; [lia|]. cbn [riter]. rewrite StepWait. exact Hg.
+    + destruct (Hpark eq_refl) as (_ & _ & Es & _). fold g in Es. congruence.
+Qed.
+
+Theorem reader_progress cap sched :
+  let s := trun tcode (tinit cap) sched in
+  s_pending s = None -> has_data s ->
+  exists n, (n <= 4 * length (s_segs s) + 2)%nat /\ t_got (s_rd (riter n s)) = t_got (s_rd s) + 1.
+Proof.
+  cbn zeta. intros Hp Hd. pose proof (trun_inv (tinit cap) sched (tinit_inv cap)) as H.
+  destruct (reader_progress_aux _ _ H Hp eq_refl Hd) as (n & Hn & Hg). exists n. split; [|exact Hg].
+  pose proof (i_seg _ H). lia.
+Qed.
